@@ -231,7 +231,11 @@ FILE_KINDS = ["modified", "added", "deleted", "renamed", "renamed_changed", "cop
               "binary", "binary_added", "submodule", "empty_added", "binary_noindex", "submodule_added", "submodule_deleted",
               "renamed_binary_changed", "copied_binary_changed"]
 # further section shapes `gen_file` knows, not drawn by default (a check that wants them passes `kind=`)
-EXTRA_FILE_KINDS = ["binary_deleted", "binary_mode_changed"]
+EXTRA_FILE_KINDS = ["binary_deleted", "binary_mode_changed", "submodule_log"]
+# the sections whose file header delta writes late: they have no line naming their files, the header is written when the
+# next section begins (`diff` line, `commit` line, `Submodule …` line) or at the end of the input
+LATE_HEADER_KINDS = ["mode_only", "empty_added", "binary", "binary_added", "binary_deleted", "binary_mode_changed"]
+LOG_SUBJECTS = ["Fix the thing", "Ünïcode subject", "subject mentioning diff --git a/x b/x", "WIP", "--- not a header", "+++ b/x", "@@ -1 +1 @@"]
 
 
 def tabbed(name):
@@ -332,6 +336,18 @@ def gen_file(rng, kind=None, prefixes=("a/", "b/"), ending=None, paths=None):
     elif kind == "empty_added":
         f["old"] = "/dev/null"
         L += [f"diff --git {a}{p1} {b}{p1}", "new file mode 100644", "index 0000000..e69de29"]
+    elif kind == "submodule_log":
+        # `git diff --submodule=log` (diff.submodule=log): no `diff --git` line; the section is the `Submodule <path> <range>:`
+        # line - delta shows it as a file header of its own - and the subjects of the commits (`  > …` added, `  < …` removed)
+        form = rng.choice(["log", "log", "log", "rewind", "untracked", "modified"])
+        if form in ("log", "rewind"):
+            head = f"Submodule {p1} {HASH[:7]}{'...' if form == 'rewind' else '..'}{HASH[7:14]}{' (rewind)' if form == 'rewind' else ''}:"
+            msgs = [("  < " if form == "rewind" else rng.choice(["  > ", "  > ", "  < "])) + rng.choice(LOG_SUBJECTS)
+                    for _ in range(rng.randint(0, 3))]
+        else:
+            head, msgs = f"Submodule {p1} contains {form} content", []
+        f["log_header"] = head
+        L += [head] + msgs
     for h in f["hunks"]:
         if ending and h is f["hunks"][-1]:
             # force the last line kind of the section
